@@ -40,10 +40,18 @@ class MinMaxValue(GenericValue):
             # no value could be recorded (UsageError in clone)
             return
 
+        def cmp(a, b):
+            try:
+                return self.cmp(a, b)
+            except Exception:
+                # values which can not be compared, like in `"a" <= snapshot(5)`.
+                # The same exception was already raised inside the test
+                return False
+
         new_token = value_to_token(self._new_value)
-        if not self.cmp(self._old_value, self._new_value):
+        if not cmp(self._old_value, self._new_value):
             flag = "fix"
-        elif not self.cmp(self._new_value, self._old_value):
+        elif not cmp(self._new_value, self._old_value):
             flag = "trim"
         elif (
             self._ast_node is not None
